@@ -133,7 +133,10 @@ CFG = dict(
                "(C03_minmaxnorm_both_expired_window_is_null); the model with that loop body deleted returns exactly the same outcome for "
                "every series, window (0 included), min_periods and body (C03_minmaxnorm_both_expired_arm_is_dead_code). "
                "Nothing is partial. The model is tied to the code by ~47k differential cases per quick run (incl. window 0 and "
-               "min_periods above the window on every entry point, path and element type).",
+               "min_periods above the window on every entry point, path and element type). "
+               "Second, static tie (translator): the rescan condition, rescan range, comparator and Ordering patterns (tie-breaking) of ts_vmin / ts_vmax / ts_vargmin / ts_vargmax, their n >= min_periods guards and the idx - start + 1 output, the recount comparisons / constants / guards of ts_vrank, the sentinels / expiry tests / comparison operators / guard of ts_vminmaxnorm and the guards of ts_vzscore are re-extracted from cmp.rs / norm.rs on every run and Proofs/SrcTablesMapExt.v re-proves, for every carrier, null dictionary, series and state, that the callbacks of Model/Cmp.v / Model/Norm.v use exactly those (src_ext_step_conforms, src_ts_vmin/vmax/vargmin/vargmax_conforms, src_ts_vrank_conforms, src_ts_vminmaxnorm_conforms, src_ts_vzscore_conforms).",
+    src_tables=True,   # tools/gen_tables.py (+ gen_tables_map.py): decision tables regenerated from the Rust source on every run
+    src_tables_proofs=["Proofs/SrcTablesMapExt.vo"],
     level_note="Trusted: Coq kernel (+ stdlib Reals axioms under the rank / z-score theorems only); the hand-written model of "
                "cmp.rs / norm.rs / isnone.rs sort_cmp; the order kernels are proved for every carrier satisfying OrdLaws (instances Z, "
                "option R; and Coq's primitive binary64 float — the binary64 theorems C03_*_binary64 are counted obligations and depend on the standard library's own FloatAxioms.eqb_spec / ltb_spec / leb_spec, the specification of the primitive float comparisons), float arithmetic (rank value, "
